@@ -34,7 +34,8 @@ def run(tier="quick", seed=0, use_cache=True):
         "themselves have no failure exit after their first store into the "
         "node being split (accepted idiom: the final PER_CHANGED result). The invariants after every step of every history (leaf "
         "chain = descent order, no empty node, keys within separator ranges) "
-        "depend on reachable shapes and are not decided by static analysis.")
+        "depend on reachable shapes and are not decided by static analysis."
+        ' FIRSTBUCKET-INV and PY-DEL-TAIL as in C01; status 2 is returned only with the child index tested zero.')
     res.assumptions = ["necessary conditions only; _check()/check() success over histories is not decided"]
     out = engine.map_tus("sa.props.C03", "tu_check", use_cache=use_cache)
     for fam, r in sorted(out.items()):
